@@ -17,9 +17,14 @@ use std::sync::{Arc, Mutex};
 use std::time::Duration;
 use vcore::{Ctx, Finish, Rng, RunOpts, ScenarioOut};
 
-fn fails_single(cfg: &Cfg, class: &str) -> impl FnMut(&[Op]) -> bool + '_ {
+fn fails_single<'a>(cfg: &'a Cfg, class: &str) -> impl FnMut(&[Op]) -> bool + 'a {
     let class = class.to_string();
     move |h: &[Op]| {
+        // stay inside the explored space: a candidate that wanders into a
+        // known-defect zone would fail for the known reason
+        if crate::zones::in_zone(h).is_some() {
+            return false;
+        }
         let mut st = Stats::default();
         matches!(diff::run_single(cfg, h, &mut st), Some(c) if c.class == class)
     }
@@ -88,7 +93,7 @@ fn scenario_single(ctx: &Ctx, idx: u64) -> ScenarioOut {
     let (h, rejected) = gen_history(&mut rng, &gc);
     let mut out = ScenarioOut::default();
     let mut st = Stats::default();
-    out.count("zone_rejected", rejected);
+    crate::gen::count_rejected(&mut out, &rejected);
     out.count("histories_single", 1);
     let c = diff::run_single(&cfg, &h, &mut st);
     if let Some(c) = &c {
@@ -115,7 +120,8 @@ fn scenario_pair(ctx: &Ctx, idx: u64) -> ScenarioOut {
     let order: Vec<bool> = (0..h0.len() + h1.len() + 4).map(|_| rng.coin()).collect();
     let mut out = ScenarioOut::default();
     let mut st = Stats::default();
-    out.count("zone_rejected", r0 + r1);
+    crate::gen::count_rejected(&mut out, &r0);
+    crate::gen::count_rejected(&mut out, &r1);
     out.count("histories_pair", 1);
     let c = diff::run_pair(&cfg, &h0, &h1, &order, &mut st);
     if let Some(c) = &c {
@@ -256,7 +262,8 @@ fn scenario_sim(ctx: &Ctx, idx: u64) -> ScenarioOut {
     let (h1, r1) = gen_history(&mut rng, &gc);
     let mut out = ScenarioOut::default();
     let mut st = Stats::default();
-    out.count("zone_rejected", r0 + r1);
+    crate::gen::count_rejected(&mut out, &r0);
+    crate::gen::count_rejected(&mut out, &r1);
     out.count("histories_sim", 1);
     let c = run_sim_pair(&cfg, seed, &h0, &h1, &mut st);
     if let Some(c) = &c {
